@@ -207,3 +207,74 @@ def run_pinned(chk, pid: str) -> None:
             continue
         case = {"label": "pinned", "file": f.name, "program": brief(p), "json": p}
         chk.violation(case, m, key=("pinned:" + f.stem) if m["what"] == rec["what"] else None)
+
+
+# ------------------------------------------------------------------ in-process mutation probes (selftests)
+def standard_probes():
+    """Realistic bugs as monkeypatches of the library (never written to /repo); the patch is applied in
+    the parent before the worker pool forks.  Returns {name: contextmanager factory}."""
+    from contextlib import contextmanager
+    import django_components.component as dcomp
+    import django_components.context as dctx
+    import django_components.provide as dprov
+    import django_components.slots as dslots
+
+    @contextmanager
+    def patch(obj, name, new):
+        old = getattr(obj, name)
+        setattr(obj, name, new)
+        try:
+            yield
+        finally:
+            setattr(obj, name, old)
+
+    def is_filled_always_true():
+        return patch(dslots.SlotIsFilled, "__missing__", lambda self, key: True)
+
+    def fills_named_b_dropped():
+        orig = dslots.resolve_fills
+
+        def rf(context, nodelist, name):
+            d = orig(context, nodelist, name)
+            d.pop("b", None)
+            return d
+        return patch(dcomp, "resolve_fills", rf)
+
+    def only_flag_does_not_isolate():
+        return patch(dcomp, "make_isolated_context_copy", lambda ctx: ctx)
+
+    def default_flag_fallback_dropped():
+        return patch(dslots, "DEFAULT_SLOT_KEY", "default_")
+
+    def inject_returns_outermost():
+        orig = dprov.get_injected_context_var
+
+        def g(component_name, context, key, default=None):
+            internal = dprov._INJECT_CONTEXT_KEY_PREFIX + key
+            for d in context.dicts:                      # first (outermost) layer wins
+                if internal in d:
+                    return dprov.provide_cache[d[internal]]
+            return orig(component_name, context, key, default)
+        return patch(dcomp, "get_injected_context_var", g)
+
+    def slot_data_alias_lost():
+        orig = dslots._nodelist_to_slot_render_func
+
+        def f(component_name, slot_name, nodelist, data_var=None, default_var=None, extra_context=None):
+            return orig(component_name, slot_name, nodelist, None, default_var, extra_context)
+        return patch(dslots, "_nodelist_to_slot_render_func", f)
+
+    def root_attrs_not_passed_to_children():
+        import django_components.perfutil.component as pc
+
+        class Sink(dict):
+            def update(self, *a, **k):
+                pass
+        return patch(pc, "child_component_attrs", Sink())
+
+    return {"is_filled-always-true": is_filled_always_true, "fills-named-b-dropped": fills_named_b_dropped,
+            "only/isolated-does-not-isolate": only_flag_does_not_isolate,
+            "default-flag-fallback-dropped": default_flag_fallback_dropped,
+            "inject-returns-outermost-provider": inject_returns_outermost,
+            "slot-data-alias-lost": slot_data_alias_lost,
+            "root-attrs-not-passed-to-children": root_attrs_not_passed_to_children}
